@@ -363,6 +363,18 @@ func ToV(v Val, carrier string) sb.V {
 		for i, e := range v.A {
 			es[i] = ToV(e, "")
 		}
+		if carrier == "map:str:str" {
+			// a Go map[string]string when every value is a string
+			allStr := true
+			kv := make([]sb.V, len(v.Keys))
+			for i, e := range v.A {
+				allStr = allStr && e.K == KStr
+				kv[i] = sb.V{K: "str", S: v.Keys[i]}
+			}
+			if allStr {
+				return sb.V{K: "map:str:str", KV: kv, E: es}
+			}
+		}
 		return sb.V{K: "hash", E: es, KS: append([]string(nil), v.Keys...)}
 	}
 	return sb.V{K: "null"}
